@@ -3,6 +3,7 @@
 //@ variant: tcp-nr TU=libxcm/tp/tcp/xcm_tp_tcp.c DEFS=-DXF_TCP_-DXV_NR P=tcp R=buffer_msg NOTE=quick
 //@ variant: tls-nr TU=libxcm/tp/tls/xcm_tp_tls.c DEFS=-DXF_TLS_-DXV_NR P=tls R=buffer_msg NOTE=quick
 //@ tu: $TU
+//@ replay: framing_native.py
 //@ defs: $DEFS
 //@ loops: framing.loops
 //@ enforce: $P_receive
